@@ -11,5 +11,8 @@ def run(ctx):
         tables.rule_decoder_tables(ctx, cfg, r1)
         r2 = ctx.rule("R03.2" + sfx, "stored-block grammar: 4 header bytes collected through the counter; LEN == !NLEN", floor=3, config=cfg)
         ic.rule_counted_bytes(ctx, cfg, r2, arm="RawHeader", limit=4, acc_field=None)
+        r3 = ctx.rule("R03.7" + sfx, "code-length run expansion: repeat codes fill exactly [counter, counter+run) with the previous length (16) "
+                      "or zero (17/18) and advance the counter by the run", floor=5, config=cfg)
+        ic.rule_repeat_run(ctx, cfg, r3, exact=False)
         r6 = ctx.rule("R03.6" + sfx, "slow-path Huffman walk reads only bits that are in the buffer", floor=2, config=cfg)
         ic.rule_bit_reads(ctx, cfg, r6)
